@@ -148,6 +148,14 @@ func (f *Subseq) getArgs(s *slip.Scope, args slip.List, depth int) (start, end i
 		}
 	}
 	switch ta := args[0].(type) {
+	case nil:
+		// the empty list
+		if end < 0 {
+			end = 0
+		}
+		if 0 < start || 0 < end {
+			slip.ErrorPanic(s, depth, "indices %d and %d are out of bounds for list of length %d", start, end, 0)
+		}
 	case slip.List:
 		if end < 0 {
 			end = len(ta)
